@@ -403,7 +403,7 @@ func (m *Machine) mapState(st *State, ref Term, t types.Type) *mapContent {
 		mc.get = m.syms.fresh("map.get", ArraySort(ks, vs))
 		mc.size = m.syms.fresh("map.size", SBV64)
 	}
-	st.assume(BVSge(mc.size, BVLitI(0, 64)))
+	st.assume(And(BVSge(mc.size, BVLitI(0, 64)), BVSle(mc.size, BVLitI(1<<40, 64))))
 	st.ghost[k] = mc
 	return mc
 }
